@@ -41,8 +41,8 @@ Touch(op, a, base, size) ==
                         ELSE T("ok", ao, Min(a.bl, size - ao), FALSE)
     [] op = "g_write_obj" -> IF Len(a.buf) = 0 THEN T("ok", 0, 0, TRUE) ELSE IF inreg /\ ao + Len(a.buf) <= size THEN T("ok", ao, Len(a.buf), TRUE) ELSE AnyT
     [] op = "g_read_obj" -> IF a.esz = 0 THEN T("ok", 0, 0, FALSE) ELSE IF inreg /\ ao + a.esz <= size THEN T("ok", ao, a.esz, FALSE) ELSE AnyT
-    [] op = "g_read_from" -> IF ~inreg THEN AnyT ELSE T("ok", ao, Min(Min(a.count, Len(a.src)), size - ao), TRUE)
-    [] op = "g_write_to" -> IF ~inreg THEN AnyT ELSE T("ok", ao, Min(a.count, size - ao), FALSE)
+    [] op \in {"g_read_from", "g_read_from_fd"} -> IF ~inreg THEN AnyT ELSE T("ok", ao, Min(Min(a.count, Len(a.src)), size - ao), TRUE)
+    [] op \in {"g_write_to", "g_write_to_fd"} -> IF ~inreg THEN AnyT ELSE T("ok", ao, Min(a.count, size - ao), FALSE)
     [] op = "g_store" -> IF inreg /\ ao + Len(a.buf) <= size /\ ao % Len(a.buf) = 0 THEN T("ok", ao, Len(a.buf), TRUE) ELSE T("err", 0, 0, FALSE)
     [] op = "g_load" -> IF inreg /\ ao + a.esz <= size /\ ao % a.esz = 0 THEN T("ok", ao, a.esz, FALSE) ELSE T("err", 0, 0, FALSE)
     [] op = "s_ref_store" -> IF a.off + Len(a.buf) <= size THEN T("ok", a.off, Len(a.buf), TRUE) ELSE T("err", 0, 0, FALSE)
